@@ -2,6 +2,7 @@ import GnoVerif.Model.C38
 import GnoVerif.Model.C38Search
 import GnoVerif.Spec.C38
 import GnoVerif.Proofs.C38Frame
+import GnoVerif.Proofs.C38Search
 /-!
 # C38 — the consensus write-ahead log preserves what was written
 
@@ -218,6 +219,49 @@ theorem search_counterexample : ¬ search_statement := by
 theorem search_panic_through_wal_counterexample :
     search ⟨1000, sizedOK⟩ (buildGroup 1000 0 0 true [.item (.mark 2), .rotate]) 0 false 2 = .panicked := by
   decide
+
+/-- Partial result (soundness of "found"): for every rotation layout of well-formed
+lines with strictly increasing markers, every mode, with or without
+`IgnoreDataCorruptionErrors`: WHENEVER the search answers "found", the reader it hands
+back is positioned right after the first marker of the height asked for — never at
+another marker, never inside a line.
+MISSING for `search_statement`: that the search always answers (it can panic, see
+`search_counterexample`; termination of the probing loop is not proved either — the
+model carries a fuel bound that the correspondence run has never seen exhausted) and
+that "not found" is only answered when the marker is absent. Those two are checked by
+correspondence only (all layouts of up to 7 lines/rotations × all targets × both
+modes in the thorough tier, plus random larger ones). -/
+theorem search_found_correct_partial (cfg : Cfg) (layout : Layout)
+    (g : ∀ f ∈ layout, ∀ i ∈ f, GoodItem cfg i)
+    (hinc : (markersOf layout.flatten).Pairwise (· < ·))
+    (mode : Nat) (ignore : Bool) (h : Int) (rest : Bytes)
+    (hs : search cfg (layoutGroup layout) mode ignore h = .found rest) :
+    expectedSearch h layout = .found rest := by
+  obtain ⟨f, hf, ha⟩ := search_found_sound cfg layout g mode ignore h rest hs
+  exact expectedSearch_of_mem layout hinc h f hf rest ha
+
+/-- the hypotheses are satisfiable, and "found" does occur -/
+example : (∀ f ∈ ([[.mark 1, .msg [0]], [.mark 2], [.msg [0]]] : Layout), ∀ i ∈ f, GoodItem ⟨1000, sizedOK⟩ i) ∧
+    (markersOf ([[.mark 1, .msg [0]], [.mark 2], [.msg [0]]] : Layout).flatten).Pairwise (· < ·) ∧
+    search ⟨1000, sizedOK⟩ (layoutGroup [[.mark 1, .msg [0]], [.mark 2], [.msg [0]]]) 0 false 1
+      = .found (encodeAll [.msg [0]]) := by
+  refine ⟨?_, by decide, by decide⟩
+  intro f hf i hi
+  simp only [List.mem_cons, List.not_mem_nil, or_false] at hf
+  rcases hf with rfl | rfl | rfl <;> simp only [List.mem_cons, List.not_mem_nil, or_false] at hi
+  · rcases hi with rfl | rfl
+    · exact ⟨by decide, by decide⟩
+    · exact ⟨by decide, by decide, by decide⟩
+  · subst hi; exact ⟨by decide, by decide⟩
+  · subst hi; exact ⟨by decide, by decide, by decide⟩
+
+/-- Partial result: over well-formed lines the search never ends in a read error
+(neither a corruption error nor a marker-parse error). -/
+theorem search_no_read_error_partial (cfg : Cfg) (layout : Layout)
+    (g : ∀ f ∈ layout, ∀ i ∈ f, GoodItem cfg i) (mode : Nat) (ignore : Bool) (h : Int) :
+    search cfg (layoutGroup layout) mode ignore h ≠ .errCorrupt ∧
+    search cfg (layoutGroup layout) mode ignore h ≠ .errMeta :=
+  search_no_err cfg layout g mode ignore h
 
 /-- The reader handed back by a successful search covers only the rest of the file
 in which the marker was found (`NewReader(index, index+1)`), not the files after it:
